@@ -8,23 +8,19 @@
                     closed, equal committed contents whose root is the root of those contents
    guard_free     : no operation of the history lies in a known-finding class (ModelGuards.v) *)
 From Common Require Import Bytes.
-From C08 Require Import ModelMap Model ModelSpec ModelGuards ProofsTx ProofsMain ProofsWitness.
+From C08 Require Import ModelMap Model ModelSpec ModelGuards ProofsTx ProofsMain ProofsFull ProofsWitness.
 Local Open Scope N_scope.
 
-(* Full statement (checked by correspondence and the refutations below, proved for the
-   main-storage operations):
-     forall ops, guard_free cfg_fixed ops = true ->
-       agrees (run cfg_fixed ops ts_init) (srun ops ss_init) ops. *)
-
-(* Every history of main-storage operations (put, get, delete, prefix clear with and without
-   limit, next-key, entries) interleaved with start/commit/rollback at any nesting depth, outside
-   the finding classes: every read observes what the overlay semantics prescribe, and the
-   committed contents (and root) are the specification's. *)
-Theorem C08_reads_main_partial : forall ops,
-  forallb main_op ops = true -> guard_free cfg_fixed ops = true ->
+(* For every history of runtime storage operations on main and child storage (get, set, delete,
+   prefix clear with and without limit, next-key, entries, child-trie deletion with and without
+   limit, child key listing) interleaved with start/commit/rollback at any nesting depth, outside
+   the two finding classes: every read observes what Substrate's overlay semantics prescribe, and
+   once the outermost transaction is committed the committed contents are the specification's
+   (with a root that is the root of exactly these contents: no stale child root). *)
+Theorem C08_reads : forall ops, guard_free cfg_fixed ops = true ->
   agrees (run cfg_fixed ops ts_init) (srun ops ss_init) ops.
-Proof. exact reads_main. Qed.
-Print Assumptions C08_reads_main_partial.
+Proof. exact reads_full. Qed.
+Print Assumptions C08_reads.
 
 (* A rollback restores exactly the state at the matching start: all operations (main and child
    storage), any state, any well-nested body, pinned and repaired code alike. *)
@@ -43,6 +39,19 @@ Example C08_nonvacuous :
   fst (run cfg_fixed ops ts_init) =
     [RUnit; RUnit; RUnit; RUnit; RUnit; RUnit; RUnit; RUnit; RVal (Some k112233); RUnit;
      RVal (Some v3); RCount 1 false; RVal (Some k112233); RUnit; REntries [(k11, v1); (k112233, v1)]].
+Proof. vm_compute. repeat split; reflexivity. Qed.
+
+(* non-vacuity with child storage: main key 11 and child trie 11 side by side, a child trie deleted
+   and written again inside a transaction, nested commit, key listing and next-key *)
+Example C08_nonvacuous_child :
+  let ops := [OCSet k11 k11 va; OCSet k11 k22 va; OPut k11 v1; OStart; ODel k11; OKill k11;
+              OCGet k11 k22; OCSet k11 k1122 vb; OStart; OCSet k11 k2255 vb; OCommit;
+              OCKeys k11 k11; OCNext k11 k11; OGet k11; OCommit; OCGet k11 k11; OCKeys k11 k22] in
+  guard_free cfg_fixed ops = true /\
+  fst (run cfg_fixed ops ts_init) =
+    [RUnit; RUnit; RUnit; RUnit; RUnit; RUnit; RErr; RUnit; RUnit; RUnit; RUnit;
+     RKeys [k1122]; RVal (Some k1122); RVal None; RUnit; RVal None; RKeys [k2255]] /\
+  snd (final_obs (snd (run cfg_fixed ops ts_init))) = true.
 Proof. vm_compute. repeat split; reflexivity. Qed.
 
 (* The pinned code (cfg_pinned) violates the property; one witness per repaired defect *)
